@@ -702,6 +702,12 @@ func writeChunkedSegment(ctx context.Context, log *slog.Logger, w http.ResponseW
 	// That fragment/chunk duration is segment_duration-availabilityTimeOffset.
 	// The chunk duration is what the availabilityTimeOffset leaves of THIS segment: the segments of an asset
 	// may differ in duration, and each one is announced as available at its own end minus the offset.
+	// Chunked delivery waits for chunks in real time: only meaningful for an offset shorter than the segment, which also
+	// bounds the wait by one segment duration. (int(+Inf) and huge offsets overflow in the conversion below.)
+	if atoTicks := cfg.AvailabilityTimeOffsetS * float64(rep.MediaTimescale); math.IsNaN(atoTicks) || atoTicks >= float64(so.meta.newDur) {
+		return fmt.Errorf("availabilityTimeOffset %gs is not shorter than the segment (%d ticks)",
+			cfg.AvailabilityTimeOffsetS, so.meta.newDur)
+	}
 	chunkDur := int(so.meta.newDur) - int(cfg.AvailabilityTimeOffsetS*1000)*int(rep.MediaTimescale)/1000
 	if chunkDur <= 0 {
 		return fmt.Errorf("availabilityTimeOffset %.3fs is not shorter than the segment (%d ticks)",
